@@ -4,20 +4,33 @@
 mod verif_kani {
     use super::*;
 
-    /// layout agreement between allocation and deallocation, for every requested size up to 4 KiB + 1:
-    /// the recorded length is the size rounded up to a multiple of 16 (what `alloc` was given), so `Drop`
-    /// rebuilds the identical layout.
+    /// the buffer handed out for every requested size up to 4 KiB + 1 is usable as C17 needs it: at least as long as requested,
+    /// aligned for `EntryBound`, its first and last byte are inside the allocation, a layout of its recorded length exists, and
+    /// dropping it trips none of CBMC's memory checks. (That `Drop` presents the *same* layout as `new` is observed on the real
+    /// allocator by native:verif_alloc::c17_layouts_match -- Kani's deallocation model does not look at the alignment.)
     #[kani::proof]
     fn c17_buffer_layout_alloc_dealloc() {
         let size: usize = kani::any();
         kani::assume(size >= 1 && size <= 4097);
-        let buf = EntryBoundAlignedBuffer::new(size);
-        assert!(buf.len % size_of::<EntryBound>() == 0, "recorded length is a multiple of the EntryBound size");
-        assert!(buf.len >= size && buf.len < size + size_of::<EntryBound>(), "recorded length is the rounded-up request");
+        let mut buf = EntryBoundAlignedBuffer::new(size);
+        assert!(buf.len >= size, "the buffer is at least as long as requested");
         assert!((buf.data.as_ptr() as usize) % align_of::<EntryBound>() == 0, "buffer is EntryBound aligned");
-        let layout_at_drop = Layout::from_size_align(buf.len, align_of::<EntryBound>()).unwrap();
-        let layout_at_alloc = Layout::from_size_align(size.div_ceil(16) * 16, 8).unwrap();
-        assert!(layout_at_drop == layout_at_alloc, "dealloc layout == alloc layout");
+        assert!(Layout::from_size_align(buf.len, align_of::<EntryBound>()).is_ok(), "a layout of the recorded length exists");
+        let n = buf.len;
+        buf[0] = 1; buf[n - 1] = 2;
+        assert!(buf[0] == 1 && buf[n - 1] == 2);
+        drop(buf);
+    }
+
+    /// proof-internal (supports the ASSUMED Verus contract EB.new.assumed, which the C08 "exactly the budget when reallocation is
+    /// disabled" argument uses): the recorded length is the request rounded up to a multiple of 16. Another rounding keeps C17 and
+    /// C08 but invalidates that assumed contract, so a failure here makes C08 / C17 undecided, not violated.
+    #[kani::proof]
+    fn c17_buffer_len_is_round16() {
+        let size: usize = kani::any();
+        kani::assume(size >= 1 && size <= 4097);
+        let buf = EntryBoundAlignedBuffer::new(size);
+        assert!(buf.len == size.div_ceil(16) * 16, "recorded length is the request rounded up to a multiple of 16");
         drop(buf);
     }
 
